@@ -59,6 +59,7 @@ def main():
     mode = args[args.index("--props") + 1] if "--props" in args else "own"
     cl = claimed()
     ev = os.path.join(VERIF, "evidence")
+    os.makedirs(os.path.join(VERIF, ".work"), exist_ok=True)
     keep = tempfile.mkdtemp(prefix="evkeep-", dir=os.path.join(VERIF, ".work"))
     for f in os.listdir(ev):
         if f.endswith(".json"):
